@@ -28,6 +28,10 @@ Equality of values / bytes / failure sets over all inputs is not decided.
 
 Round 4: driver / block template variants (holes filled with one of a few literal texts) are each
 held to the rules; the partition rule reads what the spliced list collects.
+
+Round 5: (b') sync hooks on the same side of the try in both drivers; (a') no statement hole
+besides the field blocks and the sync calls, and none whose generator emits raise / return;
+(d'') struct-code owners; the install step validates a reloaded module's cookie (C15-V).
 """
 import ast
 
